@@ -47,6 +47,8 @@ impl Housekeeper {
     }
 
     pub(crate) fn try_sync<T: InnerSync>(&self, cache: &T) -> bool {
+        #[cfg(mini_moka_verif)]
+        crate::verif::switch_point(crate::verif::site::TRY_SYNC_START);
         // Try to flip the value of sync_scheduled from false to true.
         match self.is_sync_running.compare_exchange(
             false,
@@ -55,12 +57,16 @@ impl Housekeeper {
             Ordering::Relaxed,
         ) {
             Ok(_) => {
+                #[cfg(mini_moka_verif)]
+                crate::verif::switch_point(crate::verif::site::TRY_SYNC_WON);
                 let now = cache.now();
                 self.sync_after.set_instant(Self::sync_after(now));
 
                 cache.sync(MAX_SYNC_REPEATS);
 
                 self.is_sync_running.store(false, Ordering::Release);
+                #[cfg(mini_moka_verif)]
+                crate::verif::switch_point(crate::verif::site::TRY_SYNC_RELEASED);
                 true
             }
             Err(_) => false,
@@ -73,5 +79,16 @@ impl Housekeeper {
         // Assuming that `now` is current wall clock time, this should never fail at
         // least next millions of years.
         ts.expect("Timestamp overflow")
+    }
+}
+
+#[cfg(mini_moka_verif)]
+impl Housekeeper {
+    pub(crate) fn verif_rebase(&self, now: Instant) {
+        self.sync_after.set_instant(Self::sync_after(now));
+    }
+
+    pub(crate) fn verif_is_sync_running(&self) -> bool {
+        self.is_sync_running.load(Ordering::Acquire)
     }
 }
